@@ -457,10 +457,16 @@ struct Totals {
 }
 
 fn explore_vecs(prop: &str, thorough: bool, deadline: Instant) -> (J, Vec<J>) {
-    let t0 = Instant::now();
     let inject = prop == "C06";
     let depth = if thorough { if inject { 2 } else { 3 } } else if inject { 2 } else { 3 };
     let inits: Vec<usize> = if thorough { vec![0, 1, 2, 3, 4] } else if inject { vec![0, 1, 2, 3, 4] } else { vec![0, 2] };
+    explore_vecs_ex(prop, thorough, thorough, depth, inits, "vectors", deadline)
+}
+
+/// `tier_thorough` only labels the evidence; `thorough` selects the rich (true) or the plain alphabet
+fn explore_vecs_ex(prop: &str, tier_thorough: bool, thorough: bool, depth: usize, inits: Vec<usize>, space_name: &str, deadline: Instant) -> (J, Vec<J>) {
+    let t0 = Instant::now();
+    let inject = prop == "C06";
     let totals = Totals { histories: AtomicU64::new(0), runs: AtomicU64::new(0), nontrivial: AtomicU64::new(0), unwound: AtomicU64::new(0), stop: AtomicBool::new(false) };
     let viols: Mutex<Vec<J>> = Mutex::new(Vec::new());
     let samples: Mutex<Vec<String>> = Mutex::new(Vec::new());
@@ -605,10 +611,10 @@ fn explore_vecs(prop: &str, thorough: bool, deadline: Instant) -> (J, Vec<J>) {
         .set("runs_incl_injected", runs);
     let space = J::obj()
         .set("property_id", prop)
-        .set("tier", if thorough { "thorough" } else { "quick" })
+        .set("tier", if tier_thorough { "thorough" } else { "quick" })
         .set("seed", 0)
         .set("level", if inject { "fault_enumeration" } else { "model_checking" })
-        .set("space", "vectors")
+        .set("space", space_name)
         .set("coverage", cov)
         .set("wall_s", t0.elapsed().as_secs_f64())
         .set("violations", viols.len())
@@ -791,11 +797,20 @@ fn main() {
     match cmd {
         "check" => {
             let thorough = arg(&args, "--tier").as_deref() == Some("thorough");
-            let secs: u64 = arg(&args, "--secs").and_then(|s| s.parse().ok()).unwrap_or(if thorough { 1500 } else { 50 });
+            let secs: u64 = arg(&args, "--secs").and_then(|s| s.parse().ok()).unwrap_or(if thorough { 900 } else { 50 });
             let deadline = Instant::now() + Duration::from_secs(secs);
             let mut results = Vec::new();
             match prop.as_str() {
-                "C06" | "C08" => results.push(explore_vecs(&prop, thorough, deadline)),
+                "C06" | "C08" => {
+                    results.push(explore_vecs(&prop, thorough, deadline));
+                    if thorough && prop == "C06" && results[0].1.is_empty() {
+                        // one level deeper with the plain alphabet: a panic at every callback of every history of 3 operations
+                        results.push(explore_vecs_ex(&prop, true, false, 3, vec![0, 2], "vectors-depth-3-plain-alphabet", deadline));
+                    }
+                    if thorough && prop == "C08" && results[0].1.is_empty() {
+                        results.push(explore_vecs_ex(&prop, true, false, 4, vec![0, 2], "vectors-depth-4-plain-alphabet", deadline));
+                    }
+                }
                 "C16" => {
                     results.push(split::explore(thorough, deadline));
                     results.push(flatten::explore(thorough));
